@@ -297,6 +297,8 @@ def call_value(engine, st, fv, args, kwargs, node=None, recv_node=None):
         raise OutsideSubset(f"call of a value of type {fv.ty}")
     elif k in ("set", "list", "dict", "tuple", "int", "str", "bool", "none", "graph"):
         yield st, Raised("TypeError", where=f"'{k}' object is not callable")
+    elif k == "view" and "call" in fv.t:
+        yield from fv.t["call"](engine, st, args, kwargs)
     else:
         raise OutsideSubset(f"call of {k}")
 
